@@ -72,7 +72,8 @@ def run_stream(ctx, progs, dict_compress=False, stream="ast"):
         c = classify(r, m)
         stats[c] += 1
         if c == "disagree":
-            ctx.disagree(stream, p, r[:600], m[:600])
+            i = next((k for k in range(min(len(r), len(m))) if r[k] != m[k]), min(len(r), len(m)))
+            ctx.disagree(stream, p, "…" + r[max(0, i - 150):i + 150], "…" + m[max(0, i - 150):i + 150])
     for k, v in stats.items():
         ctx.bump(f"{stream}:{k}", v)
     return stats
